@@ -126,8 +126,16 @@ void harness(void) {
 	VF_NONDET(size_t, data_size);
 	VF_ASSUME(vf_rb_started(r) && vf_rb_rpos_norm(r, &rp));
 	vf_rb_old_avail = vf_rb_avail(r, &rp);
+#ifdef VF_RB_INC_STEP
+	VF_ASSUME(vf_rb_inc_step_pre(r, &rp, data_size));
+#else
 	VF_ASSUME(data_size <= vf_rb_old_avail);
+#endif
 	r_buf_rpos_inc(r, &rp, data_size);
+#ifdef VF_RB_INC_STEP
+	VF_NATIVE_POST(vf_rb_post_inc_step(r, rp0.iov_index, rp0.iov_off, rp0.round_num, data_size, &rp),
+	    "r_buf_rpos_inc: inside the block, or exactly at offset 0 of the next block");
+#endif
 	VF_NATIVE_POST(vf_rb_rpos_wf(r, &rp) && vf_rb_rpos_norm(r, &rp) &&
 	    vf_rb_avail(r, &rp) == vf_rb_old_avail - data_size,
 	    "r_buf_rpos_inc: cursor advanced by exactly the consumed amount");
